@@ -1,12 +1,21 @@
 """C18 - every request gets a well-formed answer and cannot inject markup.
 
-Grammar fuzzing at the raw WSGI boundary.  One rich scenario (all services, cached / cascaded / group / dimension /
-failing layers) is loaded through the real loader; valid base requests for every service and operation are mutated
-(parameters dropped / duplicated / re-cased / type-confused / filled with marked markup payloads, path and header
-mutations, methods) and sent as hand-built WSGI environs.  Every response is judged by an oracle that does not use
-any mapproxy code: WSGI protocol, header hygiene, image decode + size + type, XML well-formedness (lxml, no recovery),
-hand-written shapes of the four error-document kinds, skeleton equality against a neutralised twin request, marker
-placement, HTML structure, leak patterns.
+Grammar fuzzing at the raw WSGI boundary.  Two scenarios are loaded through the real loader: A = all services (wms 1.0.0-
+1.3.0 with featureinfo + legendgraphic + four image formats, wmts kvp + restful with featureinfo, tms, kml, demo, /ows,
+/service, /wms) over cached / cascaded / group / dimension / coverage-limited layers and layers whose upstream always
+fails (HTTP 500, markup bodies, mislabelled bodies, truncated images); B = a cached layer with dimensions behind a
+restful WMTS template with dimensions.  Upstreams are the synthetic ones of vlib.upstream; the demo service's urlopen is
+looped back into the app or refused; socket connects are refused.
+
+A valid base request for every service and operation is mutated (parameters dropped / duplicated / re-cased /
+type-confused / filled with marked markup payloads / CR-LF payloads, path, query-string, header, method and environ
+mutations, combinations) and sent as a hand-built WSGI environ.  Every response is judged by an oracle that uses no
+mapproxy code: WSGI protocol (no exception, start_response once, status line, (str, str) latin-1 headers without
+CR/LF/NUL, bytes chunks, Content-Length), images (PIL decode, declared type = actual format, requested size / tile
+size), XML (lxml without recovery; hand-written shapes of the four error document kinds; skeleton equality against the
+same request with the payload neutralised; marker placement; character references not interpreted), HTML (stdlib
+tokenizer: marker never in a tag / attribute name / comment / script-valued attribute / unescaped inside <script>;
+tag skeleton equal to the neutralised twin), leak patterns (traceback, File "/, scratch dir, repo dir, /venv).
 """
 import io
 import os
@@ -23,9 +32,19 @@ from vlib import core, upstream, scenario
 PID = 'C18'
 LEVEL = 'exploration'
 BUDGET_S = {'quick': 40, 'thorough': 600}
-FLOORS = {'quick': {}, 'thorough': {}}
-RULE = ("case = one valid base request (service x operation, random valid choices for version / layer / format / srs) "
-        "plus 10 mutated variants (drop / duplicate / re-case a parameter, type-confused value, marked markup payload in "
+FLOORS = {'quick': {'requests': 7500, 'base_requests': 700, 'base_requests_answered_ok': 600, 'requests_wms': 3900,
+                    'requests_wmts': 800, 'requests_wmts_rest': 650, 'requests_tms': 650, 'requests_kml': 320,
+                    'requests_demo': 1050, 'requests_ows': 160, 'requests_app': 160, 'headers_checked': 45000,
+                    'images_decoded': 1500, 'image_sizes_judged': 1300, 'xml_parsed': 2400, 'error_docs_shape_checked': 1800,
+                    'skeletons_compared': 1000, 'html_checked': 530, 'markers_sent': 3500, 'markers_reflected_escaped': 680},
+          'thorough': {'requests': 120000, 'base_requests': 11000, 'base_requests_answered_ok': 9500, 'requests_wms': 60000,
+                       'requests_wmts': 12000, 'requests_wmts_rest': 9500, 'requests_tms': 9500, 'requests_kml': 4700,
+                       'requests_demo': 16500, 'requests_ows': 2400, 'requests_app': 2400, 'headers_checked': 700000,
+                       'images_decoded': 22000, 'image_sizes_judged': 19000, 'xml_parsed': 39000,
+                       'error_docs_shape_checked': 28000, 'skeletons_compared': 16000, 'html_checked': 8500,
+                       'markers_sent': 54000, 'markers_reflected_escaped': 11000}}
+RULE = ("case = one valid base request (one of 48 service x operation entries, random valid choices for version / layer / "
+        "format / srs) plus 10 mutated variants (drop / duplicate / re-case a parameter, type-confused value, marked markup payload in "
         "a parameter / path segment / header, path mutation, header mutation, method change, combinations); every "
         "response = one evaluation (all oracle clauses applied). distinct = (service, operation, mutated parameter, "
         "mutator class); non-trivial = the request was mutated (the unmutated base request is the trivial member)")
@@ -39,6 +58,12 @@ ASSUMPTIONS = [
     "the application never treats these characters as syntax of its own request grammar",
     "requested size is judged only when WIDTH and HEIGHT appear exactly once and are plain positive decimal integers",
     "the demo service's urlopen is looped back into the app for http://localhost... and refused otherwise",
+    "configuration metadata (titles, abstract, contact) is the administrator's text and kept free of markup characters",
+    "a raw line break that ends up inside a JavaScript string literal of a demo page breaks that script but injects "
+    "neither markup nor code: don't-care",
+    "images relayed from the deliberately faulting upstream are still required to decode (reported with cause "
+    "layer_with_faulting_upstream so that the class can be told apart)",
+    "a fixed warm-up (WMS capabilities, one png legend per layer) runs before the cases, in shards and in replays alike",
 ]
 
 TILE = 128
@@ -52,9 +77,10 @@ UP_MARK = 'zqUPSTREAM'
 TIMES = ['2020-01-01T00:00:00Z', '2020-01-02T00:00:00Z']
 
 
-WMS_MD = {'title': 'C18 "scenario" <&>', 'abstract': 'abstract with & and <tags>',
-          'online_resource': 'http://example.org/?a=1&b=2', 'contact': {'person': 'P <b>', 'email': 'a@example.org'},
-          'access_constraints': 'none & nothing', 'fees': '<none>'}
+# configuration metadata is the administrator's text, not request-derived: kept free of markup characters (this tree
+# inserts it into capabilities documents as it is)
+WMS_MD = {'title': 'C18 scenario', 'abstract': 'abstract', 'online_resource': 'http://example.org/',
+          'contact': {'person': 'P', 'email': 'a@example.org'}, 'access_constraints': 'none', 'fees': 'none'}
 DIMS = {'time': {'values': TIMES, 'default': TIMES[0]}, 'elevation': {'values': [0, 1000], 'default': '0'}}
 
 
@@ -70,7 +96,7 @@ def build_conf_b():
     }
     conf['caches'] = {'c_dim': {'grids': ['gm'], 'sources': ['wms_dim'], 'disable_storage': True},
                       'c_m': {'grids': ['gm'], 'sources': ['wms_m']}}
-    conf['layers'] = [{'name': 'dims', 'title': 'Dimensions <cached>', 'sources': ['c_dim'], 'dimensions': DIMS},
+    conf['layers'] = [{'name': 'dims', 'title': 'Dimensions cached', 'sources': ['c_dim'], 'dimensions': DIMS},
                       {'name': 'plain', 'title': 'Plain', 'sources': ['c_m']}]
     conf['services'] = {
         'demo': {}, 'kml': {'use_grid_names': True}, 'tms': {'use_grid_names': True},
@@ -103,6 +129,8 @@ def build_conf():
                     'supported_srs': ['EPSG:3857'], 'forward_req_params': ['time', 'elevation']},
         'wms_bad': {'type': 'wms', 'req': {'url': 'http://bad/service', 'layers': 'b'}, 'supported_srs': anysrs,
                     'wms_opts': {'featureinfo': True, 'legendgraphic': True}},
+        'wms_cov': {'type': 'wms', 'req': {'url': 'http://fi/service', 'layers': 'q'}, 'supported_srs': anysrs,
+                    'wms_opts': {'featureinfo': True}, 'coverage': {'bbox': [0, 0, 8, 48], 'srs': 'EPSG:4326'}},
         'tiles_m': {'type': 'tile', 'url': 'http://ntiles/t/%(z)s/%(x)s/%(y)s.png', 'grid': 'gm'},
     }
     conf['caches'] = {
@@ -113,7 +141,7 @@ def build_conf():
         'c_bad': {'grids': ['gm'], 'sources': ['wms_bad']},
     }
     conf['layers'] = [
-        {'name': 'cached', 'title': 'Cached & <multi>', 'sources': ['c_multi', 'fi_only']},
+        {'name': 'cached', 'title': 'Cached multi', 'sources': ['c_multi', 'fi_only']},
         {'name': 'direct', 'title': 'Cascaded', 'sources': ['wms_any']},
         {'name': 'grp', 'title': 'Group', 'layers': [
             {'name': 'g_tile', 'title': 'tile source', 'sources': ['c_tile']},
@@ -123,13 +151,14 @@ def build_conf():
         {'name': 'dims', 'title': 'Dimensions', 'sources': ['wms_dim'], 'dimensions': DIMS},
         {'name': 'broken', 'title': 'Broken cache', 'sources': ['c_bad']},
         {'name': 'broken_direct', 'title': 'Broken cascaded', 'sources': ['wms_bad']},
+        {'name': 'covered', 'title': 'Coverage limited', 'sources': ['wms_cov']},
         {'name': 'leg', 'title': 'Static legend', 'sources': ['c_m'], 'legendurl': 'http://fi/legend.png'},
     ]
     conf['services'] = {
         'demo': {},
         'kml': {'use_grid_names': True},
         'tms': {'use_grid_names': True},
-        'wmts': {'kvp': True, 'restful': True, 'md': {'title': 'WMTS <t> & co'},
+        'wmts': {'kvp': True, 'restful': True, 'md': {'title': 'WMTS'},
                  'featureinfo_formats': [{'mimetype': 'text/xml', 'suffix': 'xml'},
                                          {'mimetype': 'application/json', 'suffix': 'json'},
                                          {'mimetype': 'text/html', 'suffix': 'html'}]},
@@ -154,6 +183,18 @@ def small_png(size=(20, 12), color=(10, 200, 30)):
         Image.new('RGB', size, color).save(b, 'PNG')
         _PNG[key] = b.getvalue()
     return _PNG[key]
+
+
+def legend_resp(call, color):
+    """a well-behaved upstream answers a legend request in the format it was asked for"""
+    fmt = (call.params.get('format') or 'image/png').lower()
+    if 'json' in fmt:
+        return upstream.Resp(b'{"Legend": [{"layerName": "q"}]}', 'application/json')
+    from PIL import Image
+    b = io.BytesIO()
+    kind = 'JPEG' if 'jp' in fmt else ('GIF' if 'gif' in fmt else ('TIFF' if 'tif' in fmt else 'PNG'))
+    Image.new('RGB', (20, 12), color).save(b, kind)
+    return upstream.Resp(b.getvalue(), 'image/' + kind.lower())
 
 
 class World(object):
@@ -192,6 +233,12 @@ class World(object):
             for f in sorted(files):
                 self.static.append(os.path.relpath(os.path.join(base, f), sdir))
         self.static.sort()
+        if which == 'A':
+            # fixed warm-up, so that cached state (legend cache) is the same in every shard and in a replay
+            for qs in ['SERVICE=WMS&VERSION=1.1.1&REQUEST=GetCapabilities', 'SERVICE=WMS&VERSION=1.3.0&REQUEST=GetCapabilities'] + [
+                    'SERVICE=WMS&VERSION=1.1.1&REQUEST=GetLegendGraphic&FORMAT=image/png&LAYER=' + n
+                    for n in ('direct', 'cached', 'leg', 'grp', 'broken_direct')]:
+                call_app(self.app, {'path': '/service', 'qs': qs})
         self.leaks = [b'Traceback (most recent call last)', b'File "/', self.dir.encode(),
                       os.path.dirname(self.dir).encode(), os.path.realpath(core.REPO).encode(), b'/repo/', b'/venv/',
                       b'site-packages']
@@ -208,9 +255,7 @@ class World(object):
                 return upstream.Resp(b'{"features": [{"a": 1}]}', 'application/json')
             return upstream.Resp(b'info: a = 1', 'text/plain')
         if call.kind == 'legend' or call.path.endswith('legend.png'):
-            if 'json' in (call.params.get('format') or ''):
-                return upstream.Resp(b'{"Legend": [{"layerName": "q"}]}', 'application/json')
-            return upstream.Resp(small_png(), 'image/png')
+            return legend_resp(call, (10, 200, 30))
         if call.kind == 'getmap':
             return self.noise(call)
         return upstream.Resp(b'<ServiceExceptionReport><ServiceException>unsupported</ServiceException>'
@@ -218,7 +263,7 @@ class World(object):
 
     def bad_handler(self, call):
         if call.kind == 'legend':
-            return upstream.Resp(small_png((16, 16), (200, 0, 0)), 'image/png')
+            return legend_resp(call, (200, 0, 0))
         k = zlib.crc32(call.url.encode('utf-8', 'replace')) % 5
         markup = ('<html><body><script>%s</script><b>upstream failed</b></body></html>' % UP_MARK).encode()
         if k == 0:
@@ -246,7 +291,7 @@ class World(object):
         self.loop_calls += 1
         try:
             req = {'m': 'GET', 'path': urllib.parse.unquote(u.path, encoding='latin-1'), 'qs': u.query, 'h': {}}
-            obs = call_app(self.app, req)
+            obs = call_app(self.app, req, timeout=0)      # the outer request's watchdog stays armed
         finally:
             self.loop_depth -= 1
         if obs['exc']:
@@ -277,8 +322,8 @@ def setup_shard(run):
 # raw WSGI call
 # ---------------------------------------------------------------------------------------------------------------------
 
-class Watchdog(Exception):
-    pass
+class Watchdog(BaseException):
+    """not an Exception: the application's own catch-all must not swallow the harness watchdog"""
 
 
 def _alarm(signum, frame):
@@ -353,10 +398,7 @@ def call_app(app, req, timeout=60):
                 obs['chunks'].append(chunk)
         except Watchdog:
             obs['watchdog'] = True
-        except BaseException as ex:   # noqa - anything escaping the app is what the property forbids
-            if isinstance(ex, (KeyboardInterrupt, SystemExit)) and not isinstance(ex, Exception):
-                if isinstance(ex, KeyboardInterrupt):
-                    raise
+        except (Exception, SystemExit) as ex:   # anything escaping the app is what the property forbids
             obs['exc'] = ''.join(traceback.format_exception(type(ex), ex, ex.__traceback__))[-3000:]
         finally:
             try:
@@ -379,7 +421,7 @@ def call_app(app, req, timeout=60):
 
 BBOX = {'EPSG:3857': (1000000.0, 6000000.0, 1400000.0, 6400000.0), 'EPSG:900913': (1000000.0, 6000000.0, 1400000.0, 6400000.0),
         'EPSG:4326': (5.0, 45.0, 15.0, 55.0), 'EPSG:25832': (300000.0, 5500000.0, 700000.0, 5900000.0)}
-WMS_LAYERS = ['cached', 'direct', 'grp', 'g_tile', 'g_jpeg', 'g_direct', 'dims', 'broken', 'broken_direct', 'leg',
+WMS_LAYERS = ['covered', 'cached', 'direct', 'grp', 'g_tile', 'g_jpeg', 'g_direct', 'dims', 'broken', 'broken_direct', 'leg',
               'cached,direct', 'grp,cached', 'leg,dims', 'direct,broken_direct']
 TILE_LAYERS = [('cached', 'gm'), ('cached', 'gd'), ('g_tile', 'gm'), ('g_jpeg', 'gm'), ('broken', 'gm'), ('leg', 'gm')]
 FMT100 = {'image/png': 'PNG', 'image/jpeg': 'JPEG', 'image/gif': 'GIF', 'image/tiff': 'TIFF'}
@@ -448,8 +490,21 @@ def b_wms_map(rng, ver):
     return {'segs': [_wms_path(rng)], 'params': _wms_common(ver, 'map', 'GetMap', rng) + _map_params(ver, rng)}
 
 
+def b_wms_map_err(rng, ver):
+    """GetMap that fails (unknown layer / unsupported SRS) with image or blank exceptions requested"""
+    p = _wms_common(ver, 'map', 'GetMap', rng) + _map_params(ver, rng, rng.choice(['nosuchlayer', 'cached,nosuchlayer', 'direct']))
+    p = [kv for kv in p if kv[0] != 'EXCEPTIONS']
+    if p[-1][0] != 'LAYERS' and 'nosuchlayer' not in str(p):
+        for kv in p:
+            if kv[0] in ('SRS', 'CRS'):
+                kv[1] = 'EPSG:31467'
+    p.append(['EXCEPTIONS', rng.choice(['INIMAGE', 'BLANK'] if ver in ('1.0.0', '1.3.0') else
+                                       ['application/vnd.ogc.se_inimage', 'application/vnd.ogc.se_blank'])])
+    return {'segs': [_wms_path(rng)], 'params': p}
+
+
 def b_wms_fi(rng, ver):
-    layers = rng.choice(['cached', 'direct', 'g_direct', 'grp', 'broken_direct', 'cached,direct', 'leg'])
+    layers = rng.choice(['cached', 'direct', 'g_direct', 'grp', 'broken_direct', 'cached,direct', 'leg', 'covered', 'covered'])
     p = _wms_common(ver, 'feature_info', 'GetFeatureInfo', rng) + _map_params(ver, rng, layers)
     p.append(['QUERY_LAYERS', layers if rng.random() < 0.8 else layers.split(',')[0]])
     if ver == '1.3.0':
@@ -462,6 +517,17 @@ def b_wms_fi(rng, ver):
         p.append(['INFO_FORMAT', inf])
     if rng.random() < 0.4:
         p.append(['FEATURE_COUNT', rng.choice(['1', '10'])])
+    return {'segs': [_wms_path(rng)], 'params': p}
+
+
+def b_wms_fi_nohit(rng, ver):
+    """GetFeatureInfo on a queryable layer whose source coverage does not contain the queried point: empty answer"""
+    p = _wms_common(ver, 'feature_info', 'GetFeatureInfo', rng)
+    srs = 'EPSG:4326'
+    p += [['LAYERS', 'covered'], ['QUERY_LAYERS', 'covered'], ['STYLES', ''], ['CRS' if ver == '1.3.0' else 'SRS', srs],
+          ['BBOX', '50.0,10.0,55.0,15.0' if ver == '1.3.0' else '10.0,50.0,15.0,55.0'], ['WIDTH', '100'], ['HEIGHT', '100'],
+          ['FORMAT', 'image/png'], ['I' if ver == '1.3.0' else 'X', '50'], ['J' if ver == '1.3.0' else 'Y', '50'],
+          ['INFO_FORMAT', rng.choice(['text/plain', 'text/html', 'text/xml', 'application/json'])]]
     return {'segs': [_wms_path(rng)], 'params': p}
 
 
@@ -679,6 +745,8 @@ for _v in VERS:
     OPS.append(('wms', 'getmap_' + _v, b_wms_map, _v))     # GetMap carries most parameters: double weight
 for _v in ('1.1.1', '1.3.0'):
     OPS.append(('wms', 'legendgraphic_' + _v, b_wms_legend, _v))
+    OPS.append(('wms', 'featureinfo-nohit_' + _v, b_wms_fi_nohit, _v))
+    OPS.append(('wms', 'getmap-error-in-image_' + _v, b_wms_map_err, _v))
 OPS += [
     ('wmts', 'capabilities', b_wmts_caps, None), ('wmts', 'gettile', b_wmts_tile, None),
     ('wmts', 'featureinfo', b_wmts_fi, None), ('wmts_rest', 'capabilities', b_wmts_rest_caps, None),
@@ -724,7 +792,13 @@ PAYLOADS = ['<x {m}>', '<x {m}="1"/>', '<{m}>t</{m}>', '<script>{m}</script>', '
 HDR_VALUES = ['<x {m}>', '{m}"><script>{m}</script>', "{m}'onmouseover='x", 'evil.example/{m}', '{m}.example:8080',
               '{m}.example, proxy.example', '{m}&amp;a=b', ']]>{m}', '-->{m}', '{m}\t tab', 'ü{m}'.encode('utf-8').decode('latin-1'),
               '\xff\xfe{m}', '{m}' + 'A' * 5000, '', ' ', ':', '{m}:80', '{m}:443', '[::1]:{m}', '{m}/../..', '{m}?x=<y>',
-              'javascript:{m}', '{{{{"{m}"}}}}']
+              'javascript:{m}', '{{{{"{m}"}}}}', 'h" {m}="1', 'h"/><{m} a="', "h' {m}='1", 'h/>--><{m}/><!--',
+              'h"><!-- {m} --><a b="', 'h&#x22; {m}=&#x22;1']
+CRLF_VALUES = ['a\r\nX-Injected: {m}', 'text/html\r\nSet-Cookie: {m}=1', 'image/png\r\n\r\n<html>{m}</html>', 'text/xml\nX-Injected: {m}',
+               'text/plain\rX-Injected: {m}', 'text/plain\x00{m}', 'image/png\r\n', '\r\n{m}', 'text/html; charset=utf-8\r\nX-I: {m}',
+               'application/json\u2028{m}', 'text/xml\x85{m}', 'text/\u010d\u010a{m}']
+FOCUS = {'FORMAT', 'INFO_FORMAT', 'INFOFORMAT', 'EXCEPTIONS', 'LAYERS', 'LAYER', 'QUERY_LAYERS', 'SRS', 'CRS', 'TILEMATRIXSET',
+         'VERSION', 'WMTVER', 'REQUEST', 'SERVICE', 'STYLES', 'STYLE', 'TIME', 'ELEVATION', 'WMS_LAYER', 'TMS_LAYER', 'WMTS_LAYER'}
 NEUTRAL = {ord(c): '~' for c in '<>&"\''}
 for _c in list(range(0, 32)) + [127, 0xfffe]:
     NEUTRAL[_c] = '~'
@@ -840,6 +914,34 @@ def pick_value(rng, pname):
     return expand(rng.choice(TYPECONF))
 
 
+def pick_param(m):
+    """index of the parameter to mutate; parameters that are echoed or dispatched on are preferred half of the time"""
+    if m.rng.random() < 0.5:
+        foc = [i for i, kv in enumerate(m.params) if kv[0].upper() in FOCUS]
+        if foc:
+            return m.rng.choice(foc)
+    return m.rng.randrange(len(m.params))
+
+
+def m_crlf(m):
+    """response-splitting payloads in parameters and path segments (a request header cannot carry CR/LF)"""
+    mk = m.new_marker()
+    m.payload = m.rng.choice(CRLF_VALUES).format(m=mk)
+    m.klass = 'crlf'
+    if m.params and m.rng.random() < 0.85:
+        i = pick_param(m)
+        m.param = m.params[i][0].upper()
+        m.params[i][1] = m.payload if m.rng.random() < 0.8 else (m.params[i][1] or '') + m.payload
+        m.targets.append(('param', i))
+    else:
+        if not m.segs:
+            m.segs = ['']
+        i = m.rng.randrange(len(m.segs))
+        m.param = 'seg%d' % i
+        m.segs[i] = m.segs[i] + m.payload
+        m.targets.append(('seg', i))
+
+
 def m_drop(m):
     if not m.params:
         return m_path(m)
@@ -890,7 +992,7 @@ def m_recase(m):
 def m_type(m):
     if not m.params:
         return m_path(m)
-    i = m.rng.randrange(len(m.params))
+    i = pick_param(m)
     k = m.params[i][0]
     m.klass, m.param = 'type', k.upper()
     m.params[i][1] = pick_value(m.rng, k)
@@ -902,7 +1004,7 @@ def m_type(m):
 def m_markup(m):
     if not m.params:
         return m_seg_markup(m)
-    i = m.rng.randrange(len(m.params))
+    i = pick_param(m)
     k = m.params[i][0]
     mk = m.new_marker()
     m.payload = m.rng.choice(PAYLOADS).format(m=mk)
@@ -1097,7 +1199,7 @@ def m_env(m):
         m.extra['script'] = to_path_info('/mü<zq>')
 
 
-SINGLE = [(m_drop, 8), (m_dup, 8), (m_recase, 6), (m_type, 22), (m_markup, 26), (m_pname_markup, 3), (m_seg_markup, 8),
+SINGLE = [(m_drop, 8), (m_dup, 8), (m_recase, 6), (m_type, 22), (m_markup, 26), (m_pname_markup, 3), (m_seg_markup, 8), (m_crlf, 8),
           (m_seg_type, 5), (m_path, 5), (m_qs, 3), (m_header, 12), (m_method, 4), (m_env, 2)]
 _SW = [f for f, w in SINGLE for _ in range(w)]
 
@@ -1109,7 +1211,7 @@ def mutate(base, rng, serial):
         first = rng.choice([m_drop, m_dup, m_recase, m_path, m_qs, m_method, m_env, m_type])
         first(m)
         k1, p1 = m.klass, m.param
-        second = rng.choice([m_markup, m_markup, m_header, m_seg_markup, m_type])
+        second = rng.choice([m_markup, m_markup, m_header, m_seg_markup, m_type, m_crlf])
         if not (first is m_type and second is m_type):
             second(m)
         m.klass, m.param = 'combo:%s+%s' % (k1, m.klass), m.param
@@ -1414,8 +1516,12 @@ def marker_placement_html(scan, marker, payload):
             ctx = s[max(0, pos - 80):pos + 80]
             # inside a script the payload is only data if it cannot leave its string literal: none of the
             # characters that could terminate the literal or the element may have survived
-            if payload and any(ch in payload and (payload in s) for ch in ('"', "'", '</', '\n', '\r')):
+            if payload and payload in s and any(ch in payload for ch in ('"', "'", '</')):
                 problems.append('payload verbatim inside <script>: %r' % ctx)
+                break
+            if payload and payload in s and any(ch in payload for ch in ('\n', '\r')):
+                # a raw line break inside a JS string literal breaks the script but adds no markup and no code
+                problems.append(('dc', 'line_break_inside_js_string_literal_of_demo_page'))
                 break
             ok += 1
             pos = sl.find(mlow, pos + 1)
@@ -1562,6 +1668,7 @@ def judge(run, w, item, obs, twin_fetch):
                     probs.append(('marker_outside_character_data', t + ' ... body %r' % body[:500]))
                 if ok:
                     run.hit('markers_reflected_escaped', ok)
+                    info['reflected'] = ok
                 if tr:
                     run.count('markers_reflected_transformed', tr)
             if item.get('twin') is not None and not passthrough:
@@ -1599,9 +1706,13 @@ def judge(run, w, item, obs, twin_fetch):
                 if marker:
                     p2, ok = marker_placement_html(scan, marker, payload)
                     for t in p2:
-                        probs.append(('marker_outside_character_data', t))
+                        if isinstance(t, tuple):
+                            run.dc(t[1])
+                        else:
+                            probs.append(('marker_outside_character_data', t))
                     if ok:
                         run.hit('markers_reflected_escaped', ok)
+                        info['reflected'] = ok
                 if item.get('twin') is not None:
                     tobs = twin_fetch()
                     tp, tstatus, _th, tctype = judge_protocol(run, tobs)
@@ -1626,7 +1737,7 @@ def judge(run, w, item, obs, twin_fetch):
 # ---------------------------------------------------------------------------------------------------------------------
 
 def gen_cases(run):
-    n = run.pick(2400, 40000)
+    n = run.pick(1800, 30000)
     for i in range(n):
         yield {'i': i}
 
@@ -1687,23 +1798,91 @@ def run_item(run, w, case, item):
         if clause in seen:
             continue
         seen.add(clause)
-        mech = {'clause': clause, 'service': item['svc'], 'mutator': item['mut'].split(':')[0],
-                'kind': info.get('kind'), 'where': where_of(item)}
-        detail = ('%s\nrequest: %s\nmutation: %s of %s payload=%r\nresponse: %s %s\n%s' % (
-            clause, short_req(req), item['mut'], item['param'], (item.get('payload') or '')[:120],
-            info.get('status'), info.get('ctype'), text))
+        doc = doc_kind(info.get('kind'), obs['body'])
+        src = where_of(item)
+        if clause not in ('xml_not_wellformed', 'marker_outside_character_data', 'skeleton_changed', 'error_document_shape',
+                          'header_injection', 'header_not_latin1', 'header_name'):
+            src = '-'          # the mutation is not what makes these fail
+        mech = {'clause': clause, 'cause': cause_of(clause, item, obs, text),
+                'source': src if src.startswith('header:') or clause == 'header_injection' else src.split(':')[0],
+                'docclass': 'response_headers' if clause.startswith('header_') else DOCCLASS.get(
+                    doc.split(':')[-1] if doc else doc, doc if doc in ('html', 'image', 'other', 'none') else 'other_xml')}
+        detail = ('%s\nrequest: %s\nscenario %s, %s/%s, mutation: %s of %s payload=%r\nresponse: %s %s (document: %s)\n%s' % (
+            clause, short_req(req), item.get('scn'), item['svc'], item['op'], item['mut'], item['param'],
+            (item.get('payload') or '')[:120], info.get('status'), info.get('ctype'), doc, text))
         run.violation(mech, {'i': case.get('i'), 'items': [item]}, detail)
-    if not probs and item['mut'] != 'none' and len(run.samples) < 6 and item.get('marker') and info.get('kind') in ('xml', 'html'):
-        run.sample({'request': short_req(req), 'mutation': [item['mut'], item['param']],
-                    'answer': [info.get('status'), info.get('ctype')], 'body': obs['body'][:300].decode('latin-1')})
+    if not probs and len(run.samples) < 3 and info.get('reflected'):
+        pos = obs['body'].find(item['marker'].encode())
+        run.sample({'request': short_req(req), 'mutation': [item['mut'], item['param'], item['payload'][:80]],
+                    'answer': [info.get('status'), info.get('ctype')],
+                    'judged': 'well-formed, marker only in character data / attribute value, skeleton equal to the twin',
+                    'body_around_marker': obs['body'][max(0, pos - 160):pos + 120].decode('latin-1')})
+
+
+DOCCLASS = {'WMT_MS_Capabilities': 'capabilities', 'WMS_Capabilities': 'capabilities', 'Capabilities': 'capabilities',
+            'TileMapService': 'capabilities', 'Services': 'capabilities', 'TileMap': 'capabilities',
+            'ServiceExceptionReport': 'error_document', 'WMTException': 'error_document',
+            'ExceptionReport': 'error_document', 'TileMapServerError': 'error_document', 'kml': 'kml'}
+XML_FORBIDDEN = re.compile('[\x00-\x08\x0b\x0c\x0e-\x1f\ufffe\uffff]')
+ROOT_RE = re.compile(rb'<\s*((?:[A-Za-z_][\w.-]*:)?[A-Za-z_][\w.-]*)')
+
+
+def doc_kind(kind, body):
+    if kind not in ('xml', 'html'):
+        return kind
+    if kind == 'html':
+        return 'html'
+    head = re.sub(rb'<\?.*?\?>|<!DOCTYPE[^\[>]*(\[.*?\])?\s*>|<!--.*?-->', b'', body[:1500], flags=re.S)
+    m = ROOT_RE.search(head)
+    return m.group(1).decode('latin-1') if m else 'xml'
+
+
+def cause_of(clause, item, obs, text=''):
+    broken = 'broken' in (item['req'].get('qs') or '') + item['req']['path']
+    if clause == 'xml_not_wellformed':
+        try:
+            text = obs['body'].decode('utf-8')
+        except UnicodeDecodeError:
+            return 'body_not_utf8'
+        return 'character_forbidden_in_xml' if XML_FORBIDDEN.search(text) else 'markup'
+    if clause.startswith('header_') or clause.startswith('image_'):
+        # is the declared content type a verbatim copy of a request parameter?
+        ctype = None
+        for k, v in (obs['starts'][0][1] if obs['starts'] else []):
+            if isinstance(k, str) and k.lower() == 'content-type' and isinstance(v, str):
+                ctype = v[:-len('; charset=utf-8')] if v.endswith('; charset=utf-8') else v
+        known = set(PIL_FORMAT) | set(XML_TYPES) | {'text/plain', 'text/html', 'application/json'}
+        if ctype and ctype.lower() not in known:
+            for k, v in own_qs(item['req'].get('qs') or ''):
+                if v and v == ctype:
+                    return 'parameter_%s_echoed_as_content_type' % k.upper()
+    if clause == 'image_empty' and 'featureinfo' in item['op']:
+        return 'empty_featureinfo_answer_declared_as_image'
+    if clause.startswith('image_'):
+        if 'legendgraphic' in item['op']:
+            return 'legendgraphic_answer'
+        return 'layer_with_faulting_upstream' if broken else 'healthy_upstream'
+    if clause == 'header_injection':
+        m = re.match(r'header (\S+) carries', text)
+        return 'response_header:' + (m.group(1) if m else '?')
+    return None
 
 
 def where_of(item):
     p = item['param']
-    if item['mut'].startswith('header') or 'header' in item['mut']:
+    last = item['mut'].split('+')[-1]
+    if item['mut'].startswith('combo'):
+        return 'combination'
+    if last == 'none':
+        return '-'
+    if last == 'header':
         return 'header:' + p
     if p.startswith('seg') or p.startswith('path'):
         return 'path'
+    if last in ('method', 'environ', 'querystring'):
+        return last
+    if last == 'markup_name':
+        return 'param_name'
     return 'param:' + p
 
 
@@ -1717,7 +1896,12 @@ def teardown_shard(run):
 
 def evidence_extra(total):
     return {'exhaustive': False, 'operations_in_catalogue': len(OPS),
-            'note': '5xx answers are counted (status_5xx) but are not violations; see dont_care for the tolerance classes'}
+            'mutator_classes': sorted(set(f.__name__[2:] for f, _w in SINGLE)) + ['combo'],
+            'payloads': {'markup': len(PAYLOADS), 'type_confusion': len(TYPECONF) + len(BBOXCONF), 'header': len(HDR_VALUES),
+                         'crlf': len(CRLF_VALUES)},
+            'note': '5xx answers are counted (status_5xx) but are not violations; base_request_not_ok:* counts valid base '
+                    'requests that were not answered 2xx/3xx (broken-upstream layers excluded); see dont_care for the '
+                    'tolerance classes'}
 
 
 if __name__ == '__main__':
